@@ -273,6 +273,25 @@ func (c *c16) Run(cs core.Case) core.Result {
 			r.Violate("usable-exceeds-findable", "%s: Verify counts %d usable, only %d findable", desc, usable, len(findable))
 		}
 		r.Key("s=%d|n=%d|%s|%d|%d", s, p.LenA, kind, pos, l)
+		if total == len(wit) && editNo%3 == 0 {
+			// nothing is lost: the files can be put back without any recovery
+			// block, with the double check on or off
+			setBlocks(0)
+			var rerr error
+			if pi := core.Protect(func() {
+				_, rerr = par2.Repair(env.idx, par2.RepairOptions{NumGoroutines: 2, DoubleCheck: editNo%2 == 1})
+			}); pi != nil {
+				r.Violate(core.CrashSig("par2.Repair", pi.Frame, pi.Msg), "%s: Repair without recovery files (no slice lost) panicked: %s", desc, pi.Msg)
+				return
+			}
+			r.Count("edits_repaired_without_recovery_files", 1)
+			if rerr != nil {
+				r.Violate("repair-needs-more-than-touched-slices", "%s: no slice is touched, yet Repair without recovery files fails: %v", desc, rerr)
+			} else if w := env.wrongFiles(); len(w) > 0 {
+				r.Violate("repair-nil-but-files-differ", "%s: %v", desc, w)
+			}
+			return
+		}
 		if p.Repair > 0 && editNo%p.Repair == 0 {
 			t := total - len(wit)
 			want := t
